@@ -22,6 +22,7 @@ def knobs(draw, n_lin, n_atoms, n_cons):
             'lin_perm': draw(st.permutations(list(range(n_lin)))),
             'atom_spell': [draw(st.integers(0, 5)) for _ in range(n_atoms)],
             'atom_scale': [draw(st.sampled_from([1.0, 1.0, 2.0, 0.5, 4.0])) for _ in range(n_atoms)],
+            'loose_bounds': draw(st.sampled_from([0, 1, 2])),
             'set_style': draw(st.integers(0, 5)),
             'atom_perm': draw(st.permutations(list(range(n_atoms)))),
             # ro-model knobs
@@ -56,6 +57,7 @@ def apply_det(case, k):
         c['front'] = 'ro'          # kldiv() on decisions is rejected (TypeError) by the dro front end: no dro presentation
     c['decl'] = k['decl']
     c['bound_style'] = k['bound_style']
+    c['loose_bounds'] = k.get('loose_bounds', 0)
     if c['front'] == 'dro':
         c['cones'] = [cn for cn in c['cones']]
     lin = []
@@ -216,7 +218,7 @@ class C15(Prop):
             v1, s1, kind = solve_det(c1)
             v2, s2, _ = solve_det(c2)
             fams = ['flip_obj', 'front', 'decl', 'bound_style', 'lin_style', 'lin_split_eq', 'lin_rowwise', 'lin_scale', 'lin_perm',
-                    'atom_spell', 'atom_perm', 'atom_scale']
+                    'atom_spell', 'atom_perm', 'atom_scale', 'loose_bounds']
         else:
             base = case['ro']
             c1, c2 = apply_ro(base, k1), apply_ro(base, k2)
@@ -245,6 +247,25 @@ class C15(Prop):
             return Outcome.inconclusive('cone_solver_status', labels)
         tol = (1e-6 if kind == 'lp' else 2e-4) * (1 + abs(v1))
         if abs(v1 - v2) > tol:
+            if kind == 'conic' and case['kind'] == 'det':
+                # a conic program whose optimum moves by more than the tolerance when rows and bounds are relaxed by 1e-6 has no
+                # optimal value 'within tolerance' to compare (thin feasible sets: one presentation's solver run sits 2e-5 outside)
+                from vf.props.c11 import ill_posed
+                from rsome import grb_solver, eco_solver
+                res = []
+                for cc in (c1, c2):
+                    mb, xb, pb = detmodel.build(cc)
+                    detmodel.declare(cc, mb, xb, pb)
+                    sv, _ = c06.solver_choice(cc)
+                    with quiet():
+                        mb.solve(sv, display=False)
+                        fb = mb.do_math()
+                    sol = mb.solution
+                    ok_ = sol is not None and sol.x is not None and not np.isnan(sol.objval)
+                    res.append(('gurobi' if sv is grb_solver else 'ecos', True, ok_, None, sol, fb))
+                if ill_posed(res, 2e-4):
+                    return Outcome.inconclusive('the optimum of one presentation moves by more than the comparison tolerance when rows and '
+                                                'bounds are relaxed by 1e-6 (ill-posed conic program)', labels + ['ill_posed'])
             return Outcome.fail('value:' + '+'.join(f for f in fams if k1.get(f) != k2.get(f))[:60],
                                 'two equivalent presentations give optima %.9g and %.9g' % (v1, v2), labels)
         return Outcome.ok(ndiff >= 2, labels)
